@@ -21,7 +21,7 @@ package filter_test
 //     the patterns before it.
 //
 // Part A (single patterns): every pattern of 1..3 components over the
-//   alphabet {a, b, ab, *, a*, ?, [ab], [!a], [^a], \*, **} (thorough: plus
+//   alphabet {a, b, ab, *, a*, ?, [ab], [!a], [^a], \*, \a, **} (thorough: plus
 //   b?, a**), relative and absolute, against every path of 1..4 components
 //   over {a, b, ab, *}, absolute and relative, through Match and ChildMatch,
 //   ParsePatterns+List / ListWithChild for the one-element list, and
@@ -205,7 +205,7 @@ func verifC28Special(p verifC28Pat) bool {
 // ---------------------------------------------------------------- part A
 
 func verifC28PartA(r *vh.Run) {
-	alpha := []string{"a", "b", "ab", "*", "a*", "?", "[ab]", "[!a]", "[^a]", `\*`, "**"}
+	alpha := []string{"a", "b", "ab", "*", "a*", "?", "[ab]", "[!a]", "[^a]", `\*`, `\a`, "**"}
 	if r.Thorough() {
 		alpha = append(alpha, "b?", "a**")
 	}
